@@ -23,7 +23,7 @@ def budget(tier):
 
 
 def strategy(tier):
-    return gen.map_cases(max_cells=8, max_leaves=9)
+    return gen.map_cases(max_cells=8, max_leaves=9, max_iter=300)
 
 
 KNOWN_TRIGGERS = common.MAP_KNOWN_TRIGGERS
